@@ -318,6 +318,49 @@ func drawCase(t *rapid.T) *Case {
 	return c
 }
 
+// drawCollisionCase builds a scenario around argument lists that become equal
+// when joined naively: (p+s+q, r) and (p, q+s+r) for a separator s.  The data
+// holds both combinations with different multiplicities, so that answering
+// one execution with the other's bound query is visible in the rows.
+func drawCollisionCase(t *rapid.T) *Case {
+	c := &Case{Prepare: rapid.IntRange(0, 3).Draw(t, "prepare") > 0}
+	sep := rapid.SampledFrom([]string{" ", "", ",", ", ", "|", "\x00", "\n", "] [", "\" \""}).Draw(t, "sep")
+	word := rapid.SampledFrom([]string{"x", "y", "a", "b1", "é", ""})
+	pp, q, r := word.Draw(t, "p"), word.Draw(t, "q"), word.Draw(t, "r")
+	a1, a2 := pp+sep+q, r
+	b1, b2 := pp, q+sep+r
+	var rows []model.Row
+	n1 := rapid.IntRange(1, 3).Draw(t, "n1")
+	n2 := n1 + rapid.IntRange(1, 3).Draw(t, "n2")
+	for i := 0; i < n1; i++ {
+		rows = append(rows, model.Row{"a": a1, "b": a2, "c": "k"})
+	}
+	for i := 0; i < n2; i++ {
+		rows = append(rows, model.Row{"a": b1, "b": b2, "c": "m"})
+	}
+	rows = append(rows, model.Row{"a": a1, "b": b2}, model.Row{"a": b1}, model.Row{})
+	c.Data = gen.DataSpec{Explicit: rows}
+	leafA, leafB := qref.T{Op: model.OpEq, Col: "a", PH: 1}, qref.T{Op: model.OpEq, Col: "b", PH: 2}
+	switch rapid.IntRange(0, 3).Draw(t, "shape") {
+	case 0:
+		c.Tree = qref.T{Op: model.OpAnd, Subs: []qref.T{leafA, leafB}}
+	case 1:
+		c.Tree = qref.T{Op: model.OpOr, Subs: []qref.T{leafB, qref.T{Op: model.OpNot, Subs: []qref.T{leafA}}}}
+	case 2:
+		c.Tree = qref.T{Op: model.OpAnd, Subs: []qref.T{leafB, leafA, qref.T{Op: model.OpNot, Subs: []qref.T{{Op: model.OpEq, Col: "c", Val: "zz"}}}}}
+	default:
+		c.Tree = qref.T{Op: model.OpNot, Subs: []qref.T{{Op: model.OpAnd, Subs: []qref.T{leafA, leafB}}}}
+	}
+	if rapid.Bool().Draw(t, "gb") {
+		c.GroupBy = []string{"c"}
+	}
+	listA := []Arg{{S: a1}, {S: a2}}
+	listB := []Arg{{S: b1}, {S: b2}}
+	order := rapid.Permutation([][]Arg{listA, listB, listA, listB}).Draw(t, "order")
+	c.Execs = order[:rapid.IntRange(2, 4).Draw(t, "nexec")]
+	return c
+}
+
 func replay(cf *evid.CaseFile) error {
 	var c Case
 	if err := evid.Decode(cf.Gob, &c); err != nil {
@@ -330,6 +373,7 @@ func replay(cf *evid.CaseFile) error {
 func TestQuick(t *testing.T) {
 	fix.Pinned(t, prop, replay)
 	fix.Check(t, "bind", 3000, func(rt *rapid.T) { run(rt, drawCase(rt)) })
+	fix.Check(t, "collide", 600, func(rt *rapid.T) { run(rt, drawCollisionCase(rt)) })
 }
 
 func TestThorough(t *testing.T) {
@@ -337,6 +381,7 @@ func TestThorough(t *testing.T) {
 		fix.Pinned(t, prop, replay)
 	}
 	fix.Check(t, "bind", 20000, func(rt *rapid.T) { run(rt, drawCase(rt)) })
+	fix.Check(t, "collide", 4000, func(rt *rapid.T) { run(rt, drawCollisionCase(rt)) })
 }
 
 func TestReplay(t *testing.T) {
